@@ -71,8 +71,13 @@ impl Service<http::Request<tonic::body::Body>> for Inner {
 }
 
 fn grpc_headers() -> HeaderMap {
+    grpc_headers_ct("application/grpc")
+}
+
+/// The inner service may name the message format in its content-type (`application/grpc+proto`).
+fn grpc_headers_ct(ct: &'static str) -> HeaderMap {
     let mut h = HeaderMap::new();
-    h.insert("content-type", HeaderValue::from_static("application/grpc"));
+    h.insert("content-type", HeaderValue::from_static(ct));
     h.insert("x-initial", HeaderValue::from_static("kept"));
     h
 }
@@ -117,6 +122,8 @@ struct RespCase {
     req_text: bool,
     /// the inner response body announces its exact length
     sized: bool,
+    /// content-type of the inner gRPC response
+    inner_ct: &'static str,
 }
 
 fn resp_body(c: &RespCase, ch: &Chooser) -> Outcome {
@@ -124,7 +131,7 @@ fn resp_body(c: &RespCase, ch: &Chooser) -> Outcome {
     let chunking = if c.drip { Chunking::Fixed(vec![1]) } else { Chunking::Choose { free: c.free, pending: !c.free, empty: !c.free } };
     let seen = Arc::new(Mutex::new(Seen::default()));
     let stats = Arc::new(Mutex::new(None));
-    let inner = Inner { seen: seen.clone(), resp_headers: grpc_headers(), resp_body: body.clone(), resp_trailers: Some(to_map(&c.trailers)), chunking, sized: c.sized, ch: ch.clone(), stats: stats.clone() };
+    let inner = Inner { seen: seen.clone(), resp_headers: grpc_headers_ct(c.inner_ct), resp_body: body.clone(), resp_trailers: Some(to_map(&c.trailers)), chunking, sized: c.sized, ch: ch.clone(), stats: stats.clone() };
     let mut svc = GrpcWebLayer::new().layer(inner);
     let mut b = http::Request::builder().method("POST").uri("/fx.Echo/Unary").version(http::Version::HTTP_11).header("content-type", if c.req_text { "application/grpc-web-text" } else { "application/grpc-web+proto" });
     if let Some(a) = c.accept {
@@ -238,10 +245,10 @@ fn resp_cases(tier: Tier) -> Vec<RespCase> {
                 if tier == Tier::Quick && ti > 0 && (ai + ti) % 3 != 0 {
                     continue;
                 }
-                out.push(RespCase { frames: frames.clone(), trailers: tr.clone(), accept: *accept, free: len <= free_limit && len > 0, drip: false, req_text: false, sized: false });
-                out.push(RespCase { frames: frames.clone(), trailers: tr.clone(), accept: *accept, free: false, drip: false, req_text: true, sized: false });
-                out.push(RespCase { frames: frames.clone(), trailers: tr.clone(), accept: *accept, free: false, drip: true, req_text: false, sized: false });
-                out.push(RespCase { frames: frames.clone(), trailers: tr.clone(), accept: *accept, free: false, drip: false, req_text: ai % 2 == 1, sized: true });
+                out.push(RespCase { frames: frames.clone(), trailers: tr.clone(), accept: *accept, free: len <= free_limit && len > 0, drip: false, req_text: false, sized: false, inner_ct: "application/grpc" });
+                out.push(RespCase { frames: frames.clone(), trailers: tr.clone(), accept: *accept, free: false, drip: false, req_text: true, sized: false, inner_ct: ["application/grpc", "application/grpc+proto"][(ai + ti) % 2] });
+                out.push(RespCase { frames: frames.clone(), trailers: tr.clone(), accept: *accept, free: false, drip: true, req_text: false, sized: false, inner_ct: "application/grpc" });
+                out.push(RespCase { frames: frames.clone(), trailers: tr.clone(), accept: *accept, free: false, drip: false, req_text: ai % 2 == 1, sized: true, inner_ct: ["application/grpc+proto", "application/grpc", "application/grpc+json"][(ai + ti) % 3] });
             }
         }
     }
@@ -443,9 +450,9 @@ pub fn property(tier: Tier) -> Property {
     let resp = Section::new(
         "responses",
         Config { max_bound: tier.q(2, 3), ..Default::default() },
-        "cases: inner gRPC response = 0..2 message frames (payloads 0/1/3/5 bytes, flags 0/1) + a trailer map from a menu (status only, message with ': ' and spaces, repeated key, binary value, 5 entries) x Accept in {grpc-web, +proto, -text, -text+proto, absent, */*} x request content-type {binary, text}, also with an inner body that announces its exact length (size_hint; 0 for a response that is trailers only); environment: the inner body is delivered under every chunking (all compositions for bodies <= 14/18 bytes, else <= bound cuts/Pending/empty-frame deviations) plus drip; oracle: independent grpc-web(-text) decoder recovers the identical message frames followed by exactly one 0x80 frame whose header block equals the trailers as a multimap; content-type family follows Accept; no HTTP trailers leak. Non-trivial = inner body delivered in more than one chunk.",
+        "cases: inner gRPC response = 0..2 message frames (payloads 0/1/3/5 bytes, flags 0/1) + a trailer map from a menu (status only, message with ': ' and spaces, repeated key, binary value, 5 entries) x Accept in {grpc-web, +proto, -text, -text+proto, absent, */*} x request content-type {binary, text} x inner response content-type {application/grpc, +proto, +json}, also with an inner body that announces its exact length (size_hint; 0 for a response that is trailers only); environment: the inner body is delivered under every chunking (all compositions for bodies <= 14/18 bytes, else <= bound cuts/Pending/empty-frame deviations) plus drip; oracle: independent grpc-web(-text) decoder recovers the identical message frames followed by exactly one 0x80 frame whose header block equals the trailers as a multimap; content-type family follows Accept; no HTTP trailers leak. Non-trivial = inner body delivered in more than one chunk.",
         resp_cases(tier),
-        |c: &RespCase| format!("frames={:?} trailers={:?} accept={:?} free={} drip={} req_text={} sized={}", c.frames, show(&c.trailers), c.accept, c.free, c.drip, c.req_text, c.sized),
+        |c: &RespCase| format!("frames={:?} trailers={:?} accept={:?} free={} drip={} req_text={} sized={} inner_ct={}", c.frames, show(&c.trailers), c.accept, c.free, c.drip, c.req_text, c.sized, c.inner_ct),
         resp_body,
     )
     .mins(1000, 10, 100);
